@@ -1,19 +1,5 @@
 #![allow(dead_code)]
-mod e1;
-mod e15;
-mod e16;
-mod e2;
-mod e4;
-mod e6;
-mod families;
-mod oracle;
-mod plans;
-mod provider;
-mod report;
-mod run;
-mod sched;
-mod sweep;
-mod universe;
+use rvmc::{e6, oracle, plans, report, run};
 
 use std::{path::PathBuf, time::Instant};
 
